@@ -45,6 +45,26 @@ typedef struct
 extern const TypeOps g_types[];
 extern const size_t g_ntypes;
 
+/* Output buffers: under ASan the block is exactly bufsize bytes (the sanitizer reports the first byte outside); in plain builds
+   GUARD canary bytes follow the buffer and are verified after the call: an overrun is reported as return code -99. */
+#if defined(__SANITIZE_ADDRESS__)
+#define GUARD 0U
+#else
+#define GUARD 16U
+#endif
+static uint8_t* out_alloc(size_t bufsize, int fill)
+{
+    uint8_t* b = (uint8_t*) malloc(bufsize + GUARD);
+    memset(b, fill, bufsize);
+    memset(b + bufsize, 0xC3, GUARD);
+    return b;
+}
+static int out_guard_ok(const uint8_t* b, size_t bufsize)
+{
+    for (size_t i = 0; i < GUARD; i++) { if (b[bufsize + i] != 0xC3U) { return 0; } }
+    return 1;
+}
+
 static int hexval(char c) { return (c <= '9') ? c - '0' : ((c | 32) - 'a' + 10); }
 static uint8_t* parse_hex(const char* s, size_t* n)
 {
@@ -83,10 +103,10 @@ static int driver_main(void)
             Tok t = {tv, n, 4};
             void* o = ops->create(1);
             ops->build(o, &t);
-            uint8_t* buf = (uint8_t*) malloc(bufsize);
-            memset(buf, fill, bufsize);
+            uint8_t* buf = out_alloc(bufsize, fill);
             size_t size = bufsize;
-            const int rc = ops->ser(o, buf, &size);
+            int rc = ops->ser(o, buf, &size);
+            if (!out_guard_ok(buf, bufsize)) { rc = -99; }
             printf("S %d ", rc);
             if (rc >= 0) { printf("%zu ", size); print_hex(buf, size <= bufsize ? size : bufsize); }
             printf("\n");
@@ -98,10 +118,10 @@ static int driver_main(void)
             Tok t = {tv, n, 4};
             void* o = ops->create(1);
             ops->build(o, &t);
-            uint8_t* buf = (uint8_t*) malloc(bufsize);
-            memset(buf, fill, bufsize);
+            uint8_t* buf = out_alloc(bufsize, fill);
             size_t size = bufsize;
-            const int rc = ops->ser(o, buf, &size);
+            int rc = ops->ser(o, buf, &size);
+            if (!out_guard_ok(buf, bufsize)) { rc = -99; }
             printf("R %d ", rc);
             if (rc >= 0) {
                 print_hex(buf, size);
